@@ -72,7 +72,7 @@ func c11AllocZeroed(m *watModule, ha *watFunc) (bool, string) {
 						}
 					}
 					// the size is a multiple of W by construction: mul(x, W) (or a multiple of it)
-					mult := size.Op == "op" && size.Name == "mul" && (wIsConst(size.Args[1], w) || wIsConst(size.Args[0], w) || (w == 4 && (wIsConst(size.Args[1], 8) || wIsConst(size.Args[0], 8))))
+					mult := wIsMultipleOf(size, w)
 					if exit && mult {
 						covered = true
 					}
@@ -87,4 +87,46 @@ func c11AllocZeroed(m *watModule, ha *watFunc) (bool, string) {
 		return false, "no path returns an allocated block"
 	}
 	return true, ""
+}
+
+// wIsMultipleOf: t is a multiple of w (a power of two) by the way it is built: x*k with w | k, x & mask with the low
+// log2(w) bits of mask clear, x << k with w | 2^k, or a constant multiple.
+func wIsMultipleOf(t *wterm, w int64) bool {
+	if t == nil || w <= 0 {
+		return false
+	}
+	if t.Op == "const" {
+		return t.K%w == 0
+	}
+	if t.Op != "op" || len(t.Args) != 2 {
+		return false
+	}
+	constArg := func() (int64, bool) {
+		for _, a := range t.Args {
+			if a.Op == "const" {
+				return a.K, true
+			}
+		}
+		return 0, false
+	}
+	switch t.Name {
+	case "mul":
+		if k, ok := constArg(); ok && k%w == 0 {
+			return true
+		}
+		return wIsMultipleOf(t.Args[0], w) || wIsMultipleOf(t.Args[1], w)
+	case "and":
+		if k, ok := constArg(); ok && k&(w-1) == 0 {
+			return true
+		}
+		return wIsMultipleOf(t.Args[0], w) || wIsMultipleOf(t.Args[1], w)
+	case "shl":
+		if t.Args[1].Op == "const" && t.Args[1].K >= 0 && t.Args[1].K < 63 && (int64(1)<<uint(t.Args[1].K))%w == 0 {
+			return true
+		}
+		return wIsMultipleOf(t.Args[0], w)
+	case "add", "sub":
+		return wIsMultipleOf(t.Args[0], w) && wIsMultipleOf(t.Args[1], w)
+	}
+	return false
 }
